@@ -47,7 +47,7 @@ def log_dt(rng, lo_ns=1_000, hi_ns=7_200_000_000_000):
     """sampling interval: log-uniform 1 µs .. hours, in ns"""
     import math
     if lo_ns <= 1_000 and rng.random() < 0.08:      # very short ODD intervals: integer halving / truncation of ns shows up here
-        return rng.choice([1, 3, 5, 7, 9, 11, 101, 999, 1001, 2001])
+        return rng.choice([1, 3, 5, 7, 9, 11, 101, 999, 1000, 1000, 1001, 2001])
     return max(1, int(math.exp(rng.uniform(math.log(lo_ns), math.log(hi_ns)))))
 
 I64_MIN = -(2 ** 63)
